@@ -63,6 +63,15 @@ impl Prop for C10T {
         let need = msgs.iter().map(|x| x.render().len()).max().unwrap_or(1).max(if IFACES[iface].family == Family::Queue { 64 } else { 1 });
         let ns: Vec<usize> = IFACES[iface].ns.iter().copied().filter(|&n| n >= need).collect();
         let n = if ns.is_empty() { *IFACES[iface].ns.last().unwrap() } else { ns[rng.below(ns.len().min(3))] };
+        // sometimes a message whose answers fill the N byte response buffer exactly
+        if rng.chance(1, 6) {
+            if let Some(fm) = super::common::response_fill_units(&mut rng, m, n) {
+                if fm.render().len() <= n {
+                    let at = rng.below(msgs.len() + 1);
+                    msgs.insert(at, fm);
+                }
+            }
+        }
         let mut sc = Scenario { prop: "C10".into(), seed, iface, cap, n, msgs, ..Default::default() };
         let bytes = render(&sc.msgs).0;
         sc.scheds.push(gen::sched(&mut rng, &bytes));
